@@ -335,6 +335,111 @@ func runScalars(raw json.RawMessage, seed int64, rec *Rec) {
 			chars = append(chars, string(r))
 		}
 		rec.Add(E("result", "chars", chars, "present", val != "", "waited_ms", at.Sub(t0).Milliseconds()))
+	case "handler_ctx":
+		// the handler's context ends on the server side alone (a deadline conveyed in the timeout header by a peer that
+		// does not enforce it itself, or the server cancelling the request) and the handler returns ctx.Err() as is: the
+		// client, still listening, must be told deadline_exceeded / canceled (C15, last sentence)
+		var hctx atomic.Bool
+		wait := func(ctx context.Context) error {
+			if c, ok := ctx.Value(sendSideKey{}).(context.CancelFunc); ok {
+				c() // "the server cancels the call"
+			}
+			<-ctx.Done()
+			hctx.Store(true)
+			return ctx.Err()
+		}
+		var h *connect.Handler
+		switch s.Used {
+		case "unary":
+			h = connect.NewUnaryHandler("/verif.v1.Svc/M", func(ctx context.Context, _ *connect.Request[BV]) (*connect.Response[BV], error) {
+				return nil, wait(ctx)
+			})
+		case "client":
+			h = connect.NewClientStreamHandler("/verif.v1.Svc/M", func(ctx context.Context, _ *connect.ClientStream[BV]) (*connect.Response[BV], error) {
+				return nil, wait(ctx)
+			})
+		case "server":
+			h = connect.NewServerStreamHandler("/verif.v1.Svc/M", func(ctx context.Context, _ *connect.Request[BV], ss *connect.ServerStream[BV]) error {
+				for i := 0; i < s.N; i++ {
+					_ = ss.Send(&BV{Value: []byte{1}})
+				}
+				return wait(ctx)
+			})
+		default:
+			h = connect.NewBidiStreamHandler("/verif.v1.Svc/M", func(ctx context.Context, bs *connect.BidiStream[BV, BV]) error {
+				for i := 0; i < s.N; i++ {
+					_ = bs.Send(&BV{Value: []byte{1}})
+				}
+				return wait(ctx)
+			})
+		}
+		mw := http.HandlerFunc(func(w http.ResponseWriter, r *http.Request) {
+			switch s.Text {
+			case "deadline", "early":
+				if s.Proto == "connect" {
+					r.Header.Set("Connect-Timeout-Ms", "60")
+				} else {
+					r.Header.Set("Grpc-Timeout", "60m")
+				}
+				if s.Text == "early" {
+					// the deadline has passed before the library gets to call the handler function
+					r.Header.Set("Connect-Timeout-Ms", "1")
+					r.Header.Set("Grpc-Timeout", "1m")
+				}
+				h.ServeHTTP(w, r)
+			default:
+				ctx, cancel := context.WithCancel(r.Context())
+				defer cancel()
+				h.ServeHTTP(w, r.WithContext(context.WithValue(ctx, sendSideKey{}, cancel)))
+			}
+		})
+		client := connect.NewClient[BV, BV](&memTransport{h: mw, major: 2}, "http://verif.test/verif.v1.Svc/M", clientProtoOpts(s.Proto)...)
+		ctx, stop := context.WithCancel(context.Background())
+		done := make(chan struct{})
+		var err error
+		got := 0
+		go func() {
+			defer close(done)
+			switch s.Used {
+			case "unary":
+				_, err = client.CallUnary(ctx, connect.NewRequest(&BV{}))
+			case "client":
+				cs := client.CallClientStream(ctx)
+				_ = cs.Send(&BV{})
+				_, err = cs.CloseAndReceive()
+			case "server":
+				var st *connect.ServerStreamForClient[BV]
+				st, err = client.CallServerStream(ctx, connect.NewRequest(&BV{}))
+				if err == nil {
+					for st.Receive() {
+						got++
+					}
+					err = st.Err()
+					_ = st.Close()
+				}
+			default:
+				bs := client.CallBidiStream(ctx)
+				_ = bs.Send(&BV{})
+				_ = bs.CloseRequest()
+				for {
+					if _, err = bs.Receive(); err != nil {
+						break
+					}
+					got++
+				}
+				_ = bs.CloseResponse()
+			}
+		}()
+		stuck := false
+		select {
+		case <-done:
+		case <-time.After(20 * time.Second):
+			stuck = true
+			stop()
+			<-done
+		}
+		stop()
+		rec.Add(E("result", "ok", err == nil, "code", codeOf(err), "got", got, "hctx", hctx.Load(), "stuck", stuck))
 	case "errmeta_limit":
 		// a handler fails with metadata and a long message; the client's read limit is smaller than the error payload:
 		// whatever code the client reports, the handler's metadata is in the error (C11 "on failure at least in the
